@@ -339,12 +339,17 @@ def execute(prop, plan, tier, seed, expinfo, t_start):
         solver_time['verus'] = solver_time.get('verus', 0.0) + r['wall_s']
         for k, v in scan_trusted(vu['text']).items():
             trusted_scan.setdefault(k, set()).update(v)
-        if r['undecided'] or not r['have_json'] or (r['errors'] == 0 and not r['success']) or r['vir_error']:
+        hard = [x for x in r['undecided'] if x[0] != 'rlimit']
+        if hard or not r['have_json'] or (r['errors'] == 0 and not r['success'] and not r['undecided']) or r['vir_error']:
             for (k, msg, ln) in r['undecided']:
                 undecided.append('%s: %s: %s' % (vu['name'], k, msg[:600]))
             if not r['undecided']:
                 undecided.append('%s: verus did not complete: %s' % (vu['name'], r['stderr'][-1500:]))
             continue
+        # resource-limit hits leave those functions undecided; refuted obligations of other functions still count
+        for (k, msg, ln) in r['undecided']:
+            undecided.append('%s: %s: %s' % (vu['name'], k, msg[:600]))
+            r['errors'] -= 1
         failed_tags = set()
         probe_failed = any(f['tag'] == 'vacuity' for f in r['fails'])
         r['fails'] = [f for f in r['fails'] if f['tag'] != 'vacuity']
